@@ -228,6 +228,14 @@ theorem strncpy_confined (dp dm dq s : Buf) (hs : dp.length + dm.length ≤ s.le
         List.singleton_append, Nat.zero_add] at hr
       exact ⟨s[dp.length] :: r, by rw [hr]; simp, by simp [hlen]⟩
 
+/-! ### `size_t` -> `int` -/
+
+theorem narrow32_of_lt (n : Nat) (h : n < 2147483648) : narrow32 n = (n : Int) := by
+  unfold narrow32; omega
+
+theorem narrow32_two31 : narrow32 2147483648 = -2147483648 := by
+  unfold narrow32; omega
+
 /-! ### misc list facts -/
 
 theorem takeWhile_app_stop {p : Nat → Bool} (l r : List Nat) (x : Nat) (hl : ∀ a ∈ l, p a = true) (hx : p x = false) :
